@@ -914,6 +914,8 @@ class Stack(list):
         return True
 
     def op_2swap(self):
+        if len(self) < 4:
+            raise ValueError("Stack op_2swap method requires minimum of 4 stack items")
         self[-2:-2] = [self.pop(), self.pop()]
         return True
 
